@@ -260,6 +260,17 @@ def run(repo: Repo, chk: Check, thorough: bool = False) -> None:
             if isinstance(n, ast.For) and any(isinstance(c, ast.Call) and call_name(c) == meth for st in n.body for c in ast.walk(st)):
                 lists = {a.attr for a in ast.walk(n.iter) if isinstance(a, ast.Attribute) and a.attr.endswith('_visit')}
                 loops.append((n, lists))
+        # the same dispatch through a private helper of the class that loops over the list it is given: `self._visit_with(<lists>, ob)`
+        for c in calls_in(f):
+            if not (isinstance(c.func, ast.Attribute) and dotted(c.func.value) in ('self', 'cls') and c.args):
+                continue
+            hs = [g for g in repo.funcs.values() if g.cls is f.cls and g.name == c.func.attr and g.name.startswith('_') and g is not f]
+            for g in hs:
+                gp = [p_.arg for p_ in g.params() if p_.arg not in ('self', 'cls')]
+                if gp and any(isinstance(n, ast.For) and isinstance(n.iter, ast.Name) and n.iter.id == gp[0] and
+                              any(isinstance(x, ast.Call) and call_name(x) == meth for st in n.body for x in ast.walk(st)) for n in g.walk()):
+                    lists = {a.attr for a in ast.walk(c.args[0]) if isinstance(a, ast.Attribute) and a.attr.endswith('_visit')}
+                    loops.append((cf.stmt_of(c), lists))
         exp_before, exp_after = EXPECTED_ORDER[meth]
         before = [(n, l) for n, l in loops if cf.dominates(n, mstmt, no_exc=True) and n is not mstmt]
         after = [(n, l) for n, l in loops if (n, l) not in before]
